@@ -8,6 +8,7 @@
    C11P.v (proofs). *)
 From Coq Require Import List ZArith NArith Bool Arith.
 From EasyML Require Import Base.Sx Model.Matrix Proofs.C11Spec Proofs.C11Ops Proofs.C11Transpose Proofs.C11P.
+From EasyML Require Import Model.MatrixViews Model.MatrixHistory Proofs.C12Partition Proofs.C11Part.
 Import ListNotations.
 Open Scope N_scope.
 
@@ -123,6 +124,71 @@ Theorem C11_generated_constructors : forall (T : Type),
                  | _ => r = 0 \/ c = 0 end).
 Proof. exact @generated_constructors. Qed.
 
+(* ---- session 3 ---- *)
+(* `all_fit` is a statement about the implementation's own states *)
+Theorem C11_all_fit_iff_allocated : forall (T : Type) (ops : list (op T)) (s : matrix T), Inv s ->
+  (all_fit (abs s) ops <-> impl_all_fit s ops).
+Proof. exact @all_fit_iff_impl. Qed.
+
+(* THE HISTORY THEOREM for every execution that can exist: every state passed through is a Vec
+   of at most isize::MAX elements *)
+Theorem C11_refines_allocated : forall (T : Type) (s : matrix T) (ops : list (op T)),
+  Inv s -> Forall (fun st => nlen (m_data st) <= isize_max) (s :: map fst (impl_trace s ops)) ->
+  map abs_result (impl_trace s ops) = spec_trace (abs s) ops
+  /\ Forall (fun r => Inv (fst r)) (impl_trace s ops).
+Proof. exact @history_refines_allocated. Qed.
+
+(* one operation on an allocated matrix: panics exactly on a failed precondition, then
+   unchanged; otherwise the specified list of rows *)
+Theorem C11_step_allocated : forall (T : Type) (s : matrix T) (o : op T),
+  Inv s -> nlen (m_data s) <= isize_max ->
+  (snd (impl_step s o) = false <-> precondition_fails (abs s) o)
+  /\ (snd (impl_step s o) = false -> fst (impl_step s o) = s)
+  /\ abs (fst (impl_step s o)) = fst (spec_step (abs s) o)
+  /\ snd (impl_step s o) = snd (spec_step (abs s) o).
+Proof. exact @panics_iff_allocated. Qed.
+
+(* mutation through a part of Matrix::partition: filling part k of an accepted partition with v
+   is map_mut_with_index with "v inside the part's rectangle [rlo, rhi) x [clo, chi), unchanged
+   outside" on the list of rows; a refused partition panics and changes nothing; k beyond the
+   number of parts writes nothing *)
+Theorem C11_partition_fill_step : forall (T : Type) (m : list (list T)) rp cp k (v : T), rect m ->
+  partition_fill (of_rows m) rp cp k v
+    = (of_rows (fst (spec_partition_fill m rp cp k v)), snd (spec_partition_fill m rp cp k v))
+  /\ rect (fst (spec_partition_fill m rp cp k v)).
+Proof. exact @partition_fill_refines. Qed.
+
+(* whatever the lists are, the borrow leaves size and invariant alone *)
+Theorem C11_partition_fill_frame : forall (T : Type) (s : matrix T) rp cp k (v : T), Inv s ->
+  let r := partition_fill s rp cp k v in
+  Inv (fst r) /\ m_rows (fst r) = m_rows s /\ m_cols (fst r) = m_cols s /\
+  (snd r = false <-> partition (m_rows s) (m_cols s) rp cp = Panic) /\
+  (snd r = false -> fst r = s).
+Proof. exact @partition_fill_frame. Qed.
+
+(* histories interleaving the resizing operations with mutation through partition parts *)
+Theorem C11_refines_with_partitions : forall (T : Type) (ops : list (xop T)) (s : matrix T), Inv s ->
+  Forall (fun st => nlen (m_data st) <= isize_max) (s :: map fst (xtrace s ops)) ->
+  map abs_result (xtrace s ops) = xspec_trace (abs s) ops
+  /\ Forall (fun r => Inv (fst r)) (xtrace s ops).
+Proof. exact @xhistory_refines. Qed.
+
+Example C11_nonvacuous_partitions :
+  let s := mkM [1; 2; 3; 4; 5; 6] 2 3 in
+  let ops := [XOp (OInsertRow 1 9); XPartitionFill [1] [2] 2 7; XPartitionFill [2; 1] [] 0 8;
+              XOp (ORemoveColumn 0); XPartitionFill [1; 2; 2] [1] 1 5] in
+  Inv s /\ Forall (fun st => nlen (m_data st) <= isize_max) (s :: map fst (xtrace s ops)) /\
+  map snd (xtrace s ops) = [true; true; false; true; true] /\
+  abs (fst (last (xtrace s ops) (s, true))) = [[2; 5]; [7; 9]; [7; 6]].
+Proof.
+  cbv zeta. split; [|split; [|split]].
+  - unfold Inv, nlen. cbn. repeat split; discriminate.
+  - apply Forall_forall; intros st Hin; vm_compute in Hin;
+      repeat (destruct Hin as [<-|Hin]; [vm_compute; discriminate|]); destruct Hin.
+  - vm_compute. reflexivity.
+  - vm_compute. reflexivity.
+Qed.
+
 (* non-vacuity: a concrete 2 x 3 start and a history mixing returning and panicking calls
    satisfies every hypothesis above *)
 Example C11_nonvacuous :
@@ -154,3 +220,9 @@ Print Assumptions C11_iteration_orders.
 Print Assumptions C11_preconditions_panic.
 Print Assumptions C11_constructors.
 Print Assumptions C11_generated_constructors.
+Print Assumptions C11_all_fit_iff_allocated.
+Print Assumptions C11_refines_allocated.
+Print Assumptions C11_step_allocated.
+Print Assumptions C11_partition_fill_step.
+Print Assumptions C11_partition_fill_frame.
+Print Assumptions C11_refines_with_partitions.
